@@ -464,6 +464,15 @@ func (m *Machine) assertHolds(c *Term, msg string, where string) {
 			}
 		}
 	}
+	if ex.model != nil && !m.modelSatisfiesPC(ex.model) {
+		// defensive: never report a witness that is not on this path
+		m.Stats.StaleModels++
+		if os.Getenv("GOSYM_DEBUG") != "" {
+			fmt.Fprintf(os.Stderr, "stale model at assertion %q in %s\n", msg, where)
+		}
+		ex.model = nil
+		witness = nil
+	}
 	if witness != nil {
 		// fallthrough to recording below
 	} else if c.IsFalse() {
@@ -1374,4 +1383,18 @@ func (m *Machine) noteFork(what string) {
 		m.solverWhat = map[string]int{}
 	}
 	m.solverWhat["FORK "+what]++
+}
+
+// modelSatisfiesPC checks a model against every literal of the current
+// assertion stack.
+func (m *Machine) modelSatisfiesPC(mod Model) bool {
+	ev := NewEvaluator(mod)
+	for _, fr := range m.solver.frames {
+		for _, lit := range fr {
+			if ev.Eval(lit) != 1 {
+				return false
+			}
+		}
+	}
+	return true
 }
